@@ -4,6 +4,8 @@ Check (C10_unique : forall nodes, NoDup (ids_of nodes) ->
     (forall k c i, nth_error nodes k = Some (c, Some i) -> nth_error names k = Some i) /\
     (forall k c, nth_error nodes k = Some (c, None) -> exists nm n, nth_error names k = Some nm /\ ~ In nm (ids_of nodes) /\
                                                                   nm = concat_number_suffix (variable_name_for_type c) n)).
+Check (C10_reference_denotes_exactly_one_object : forall nodes names, NoDup (ids_of nodes) -> name_nodes nodes = Ok names ->
+  forall k c i, nth_error nodes k = Some (c, Some i) -> forall k', nth_error names k' = Some i <-> k' = k).
 Check (C10_dup_id_rejected : forall nodes, dup_ids [] nodes = [] <-> NoDup (ids_of nodes)).
 Check (C10_generate : forall g p reserved,
   exists id g', generate_with_reserved g p reserved = Ok (id, g') /\
